@@ -16,7 +16,9 @@ Open Scope Q_scope.
 
 Record case := {
   k_S : Q;                                  (* largest input magnitude *)
-  k_ctx : option scaler;
+  k_bad : bool;                             (* the accepted configuration holds NaN/inf where a finite number is required *)
+  k_ctx : option scaler;                    (* VariableScaler of the validation context *)
+  k_nls : option (list Q);                  (* scales of the non-linear constraint transform of the context *)
   k_raw : config;
   k_out : option config;                    (* None = ValidationError *)
   k_same : bool;                            (* model_validate(validated object) is that object *)
@@ -75,7 +77,8 @@ Definition revalidated_ok S (first : config) (again : option config) : bool :=
   match again with Some c => config_close S c first | None => false end.
 
 Definition check_case (k : case) : bool :=
-  match validate gen_enums (k_ctx k) (k_raw k), k_out k with
+  negb (k_bad k) &&
+  match validate gen_enums (k_ctx k) (k_nls k) (k_raw k), k_out k with
   | Ok m, Some o =>
       config_close (k_S k) o m && canonical_obs o && k_same k
       && revalidated_ok (k_S k) o (k_dump k) && revalidated_ok (k_S k) o (k_json k)
